@@ -38,11 +38,20 @@ CHECKS.update({
     "C10": simcheck("§4 C10", "Generated schedules (cron grammar, id templates), clock jumps over many occurrences, schedule batch sizes, create/delete/re-create and user-created occurrence promises racing the cycle, faults and crashes; oracle S1-S4 with an independent robfig/cron computation and reference template expansion: occurrences fire once, in order, never early, promise + advance in one transaction, correct promise fields, nothing fires for a deleted incarnation's later occurrences."),
     "C11": simcheck("§4 C11", "Phase 1 builds a reachable backlog without background work, the clock jumps, the kernel restarts with all five background coroutines (registration order permuted) and a configuration drawn over the documented ranges down to batch sizes and coroutine pool of one; a finite failure phase; then cycles (clock + signal timeout, ticks until settled). Oracle: the statement's quiescence predicates hold within a bound computed from backlog/batch sizes and keep holding, every cycle settles, no task stays dispatchable beyond its bound. Workloads are kept below service capacity (schedule periods >= 60 s, scheduled promises not overdue) so that lag cannot grow without a defect. Found F12 (repaired)."),
     "C14": simcheck("§4 C14", "Generated populations, queries (wildcards, state subsets, tags, limits relative to the match count) and full cursor traversals through encode->token->decode with creations, completions, deletions and time-outs interleaved; oracle R1-R6: returned items match in the state the page was computed from, no duplicates, newest-first by sort id, page size and cursor presence, everything that matched throughout a completed traversal is returned, overdue promises never reported pending, tampered tokens rejected."),
+    "C16": dict(engine="storepbt", category="exploration", design="§5 C16",
+                technique="model-based property testing (rapid): real sqlite store vs an executable in-memory reference model, metamorphic batch-vs-single relation, driver-level fault injection enumerated over every statement position",
+                text="Generated sequences of batches of transactions of all 27 command kinds (tiny argument pools, realistic and tiny times) through store.Process on the real sqlite store. Oracle: reference model of the five tables (every Result, every table after every Execute through a second connection; validity predicates for unordered reads); batch vs one-transaction-per-batch equality; an injected failure at EVERY statement position and at commit (wrapping database/sql driver) and natural errors must fail every submission and leave the pre-batch tables; at every statement boundary another connection still sees the pre-batch tables.",
+                note="Trusted base: the reference model (≈450 lines, written from the statement plus the rule that a CompleteTasks following a no-op UpdatePromise of the same promise in the same transaction is skipped — the F19 repair); SQLite itself; the hook sqlite.NewVerif that injects the instrumented connection. sort_id is compared as an order only."),
+    "C17": dict(engine="storepbt", category="exploration", design="§5 C17",
+                technique="differential property testing (rapid): the real postgres.go code path executed through a dialect-translating driver (pgsim) vs the sqlite backend and the reference model",
+                text="No Postgres can run in the sandbox. The unmodified postgres.go (SQL text, argument order, result handling) runs on pgsim, a database/sql driver translating the Postgres dialect to SQLite by generic token rules ($n, casts, @>, DISTINCT ON, DDL types with 4-byte range CHECKs, case-sensitive LIKE). The C16 generator drives both backends from the same state; both must satisfy the reference model and hold equal decoded tables after every batch. Found F14 (callbacks.timeout INTEGER), repaired.",
+                note="Assumption: pgsim's rules are Postgres' semantics for exactly the constructs postgres.go uses; an unknown construct yields INCONCLUSIVE (exit 2). Outside the compared domain (documented dialect differences): text collation, LIKE escapes, tag keys containing '.', '[' or empty, SERIAL gaps."),
 })
 
 NOT_APPLICABLE = []
 
 ENGINES = [
+    dict(name="storepbt", path="harness/storepbt", kind_free_text="store command generator + executable reference model + failing/observing database/sql driver + pgsim (Postgres dialect on SQLite)"),
     dict(name="sim", path="harness/sim", kind_free_text="deterministic simulator: real system.System/api/coroutines/sqlite store/router/sender worker behind a rapid-driven AIO (schedule, faults, crashes are draws); per-transaction snapshots; statement-derived oracles"),
 ]
 
